@@ -22,6 +22,7 @@ func mix64(z uint64) uint64 {
 	return z ^ (z >> 31)
 }
 
+//go:norace
 func (r *Rand) Uint64() uint64 {
 	r.s += 0x9e3779b97f4a7c15
 	z := r.s
@@ -31,6 +32,8 @@ func (r *Rand) Uint64() uint64 {
 }
 
 // Intn returns a value in [0,n). n<=0 yields 0.
+//
+//go:norace
 func (r *Rand) Intn(n int) int {
 	if n <= 1 {
 		return 0
@@ -38,17 +41,25 @@ func (r *Rand) Intn(n int) int {
 	return int(r.Uint64() % uint64(n))
 }
 
+//go:norace
 func (r *Rand) Float() float64 { return float64(r.Uint64()>>11) / float64(1<<53) }
 
+//go:norace
 func (r *Rand) Bool() bool { return r.Uint64()&1 == 1 }
 
 // Chance returns true with probability num/den.
+//
+//go:norace
 func (r *Rand) Chance(num, den int) bool { return r.Intn(den) < num }
 
 // Fork derives an independent stream.
+//
+//go:norace
 func (r *Rand) Fork(label uint64) *Rand { return NewRand(Mix(r.Uint64(), label)) }
 
 // Perm returns a permutation of 0..n-1.
+//
+//go:norace
 func (r *Rand) Perm(n int) []int {
 	p := make([]int, n)
 	for i := range p {
@@ -62,6 +73,8 @@ func (r *Rand) Perm(n int) []int {
 }
 
 // Read implements io.Reader (seeded UUID bytes).
+//
+//go:norace
 func (r *Rand) Read(p []byte) (int, error) {
 	for i := range p {
 		p[i] = byte(r.Uint64())
